@@ -25,8 +25,8 @@ pub enum Op {
     DrMov(u8, u8),
     /// BSET / BCLR #bit on DR through a real instruction (read-modify-write)
     DrBit(u8, u8, bool),
-    /// advance the time base
-    Tick(u16),
+    /// advance the time base (the state counter is 64 bits wide: increments reach past 2^32)
+    Tick(u64),
 }
 impl Op {
     fn port(&self) -> Option<u8> {
@@ -140,7 +140,7 @@ fn execute(emu: &mut Emu, ops: &[Op]) -> Result<Vec<([u8; 11], Vec<String>)>, St
                 }
             }
             Op::Tick(n) => {
-                emu.cpu.bus.cpu_state_sum += n as usize;
+                emu.cpu.bus.cpu_state_sum = emu.cpu.bus.cpu_state_sum.wrapping_add(n as usize);
                 Ok(())
             }
         };
@@ -177,7 +177,7 @@ fn check_pure(ops: &[Op], obs: &[([u8; 11], Vec<String>)]) -> Result<(), String>
                 let cur = m.read();
                 m.latch = if set { cur | (1 << (b & 7)) } else { cur & !(1 << (b & 7)) };
             }
-            Op::Tick(n) => time += n as u64,
+            Op::Tick(n) => time = time.wrapping_add(n),
         }
         let (reads, msgs) = &obs[i];
         for p in 0..11 {
@@ -248,7 +248,7 @@ fn check_merged(ops: &[Op], obs: &[([u8; 11], Vec<String>)]) -> bool {
                 m.pins = v;
                 m.m = (m.m & m.ddr) | (!m.ddr & v);
             }
-            Op::Tick(n) => time += n as u64,
+            Op::Tick(n) => time = time.wrapping_add(n),
         }
         let (reads, msgs) = &obs[i];
         for p in 0..11 {
@@ -276,6 +276,7 @@ fn build_history(e: &mut Ent) -> Vec<Op> {
     let p1 = 1 + e.below(11) as u8;
     let p2 = if e.chance(1, 3) { 1 + e.below(11) as u8 } else { p1 };
     let mut ops = vec![];
+    let mut total: u64 = 0;
     for _ in 0..n {
         let p = if e.chance(1, 2) { p1 } else { p2 };
         let v = values(e);
@@ -286,8 +287,20 @@ fn build_history(e: &mut Ent) -> Vec<Op> {
             8 => Op::PinsLine(p, v),
             9 => Op::DrMov(p, v),
             10 => Op::DrBit(p, v & 7, v & 8 != 0),
-            _ => Op::Tick(e.u16()),
+            _ => Op::Tick(match e.below(6) {
+                0 => e.pick(&[0xffff_fff0u64, 0x1_0000_0000, 0x7fff_ffff, 0x8000_0000, 0xffff_ffff, 0x1_0000_0010, 1 << 40]),
+                1 => (e.u32() as u64) << e.below(12),
+                _ => e.u16() as u64,
+            }),
         });
+        if let Some(Op::Tick(t)) = ops.last().copied() {
+            // the time base is a natural number: keep the running total far from the 64-bit limit
+            if total.saturating_add(t) > (1 << 60) {
+                ops.pop();
+            } else {
+                total += t;
+            }
+        }
     }
     ops
 }
@@ -340,7 +353,7 @@ fn ops_from_json(v: &Value) -> Option<Vec<Op>> {
                     "pinsline" => Op::PinsLine(a as u8, b as u8),
                     "drmov" => Op::DrMov(a as u8, b as u8),
                     "drbit" => Op::DrBit(a as u8, b as u8, o.get(3)?.as_bool()?),
-                    _ => Op::Tick(a as u16),
+                    _ => Op::Tick(a),
                 })
             })
             .collect(),
